@@ -20,6 +20,7 @@ Directives (one per line, leading whitespace ignored):
       //@entry                following lines go right after the opening brace of the body
       //@exit                 ... right before the closing brace (unit-valued bodies)
       //@tail                 ... after the last top-level `;` of the body (before a tail expression)
+      //@loopafter K          ... right after the closing `}` of the K-th loop
       //@loop K [bind=ID]     ... before the `{` of the K-th loop (invariant/decreases); bind= names a for-iterator
       //@loopbody K           ... at the start of the K-th loop's body
       //@loopend K            ... at the end of the K-th loop's body
@@ -351,7 +352,7 @@ def weave_fn(src, container, name, nth, opts, subs, mode, sig_only=False):
                     last = cpos
                     break
             b.add(last + 1, '\n' + body_text + '\n')
-        elif kind in ('loop', 'loopbody', 'loopend', 'desugar_for'):
+        elif kind in ('loop', 'loopbody', 'loopend', 'loopafter', 'desugar_for'):
             parts = arg.split()
             kk = int(parts[0])
             loops = b.loops()
@@ -370,6 +371,8 @@ def weave_fn(src, container, name, nth, opts, subs, mode, sig_only=False):
                 b.add(lo + 1, '\n' + body_text + '\n')
             elif kind == 'loopend':
                 b.add(lc, body_text + '\n')
+            elif kind == 'loopafter':
+                b.add(lc + 1, '\n' + body_text + '\n')
             else:
                 raise Undecided('desugar_for not implemented')
         elif kind in ('before', 'after'):
